@@ -1,6 +1,66 @@
-(* Properties_C10_ebpps.v — being filled in *)
-From Coq Require Import NArith List.
-From DS Require Import EbppsCodecDefs.
-Theorem C10_ebpps_stub : sk_empty (empty_sk 3) = true.
+(* Properties_C10_ebpps.v — the EBPPS sketch image keeps the documented little-endian layout (comment above
+   get_serialized_size_bytes in ebpps_sketch_impl.hpp): every field of the image sits at its documented offset with the
+   documented value, so a reader written only from that comment ([rd n off] = the little-endian number in bytes
+   off .. off+n-1) recovers the content.  There is one serial version (1); no legacy format is accepted.
+   Only statements; proofs live in EbppsCodecProofs.v. *)
+From Coq Require Import NArith List Bool Lia Arith.
+From DS Require Import Word ThetaCodecDefs EbppsCodecDefs EbppsCodecProofs.
+Import ListNotations.
+Local Open Scope N_scope.
+
+(* byte 0: preamble longs (1 = empty, 5 otherwise); byte 1: serial version 1; byte 2: family id 19;
+   byte 3: flags (4 = EMPTY, 8 = HAS_PARTIAL_ITEM, else 0); bytes 4..7: k *)
+Theorem C10_ebpps_first_long : forall s rest, wf s ->
+  let img := enc s ++ rest in
+  rd 1 0 img = Some (if sk_empty s then 1 else 5) /\ rd 1 1 img = Some 1 /\ rd 1 2 img = Some 19 /\
+  rd 1 3 img = Some (sk_flags s) /\ rd 4 4 img = Some (e_k s).
+Proof. exact layout_first_long. Qed.
+
+Theorem C10_ebpps_flags : forall s,
+  sk_flags s = (if sk_empty s then 4 else match e_part s with Some _ => 8 | None => 0 end).
 Proof. reflexivity. Qed.
-Print Assumptions C10_ebpps_stub.
+
+(* an empty sketch is the first long alone *)
+Theorem C10_ebpps_empty_image : forall s, sk_empty s = true -> enc s = [1; 1; 19; 4] ++ u32 (e_k s).
+Proof. exact enc_empty. Qed.
+
+(* non-empty: bytes 8..15 n, 16..23 cumulative weight, 24..31 maximum weight, 32..39 rho, 40..47 C,
+   48 + 8 i .. the i-th full item, and the partial item right after the last full item *)
+Theorem C10_ebpps_nonempty_fields : forall s rest, wf s -> sk_empty s = false ->
+  let img := enc s ++ rest in
+  rd 8 8 img = Some (e_n s) /\ rd 8 16 img = Some (e_cw s) /\ rd 8 24 img = Some (e_wmax s) /\ rd 8 32 img = Some (e_rho s) /\
+  rd 8 40 img = Some (e_c s) /\
+  (forall i x, nth_error (e_data s) i = Some x -> rd 8 (48 + 8 * i) img = Some x) /\
+  (forall p, e_part s = Some p -> rd 8 (48 + 8 * length (e_data s)) img = Some p).
+Proof. exact layout_nonempty. Qed.
+
+(* the readers accept serial version 1 and family 19 only, and the preamble-longs byte must agree with the EMPTY flag *)
+Theorem C10_ebpps_versions : forall pre ver fam fl k, header_ok pre ver fam fl k = true ->
+  ver = 1 /\ fam = 19 /\ 1 <= k /\ k <= MAX_K /\
+  (if N.testbit fl 2 then pre = 1 /\ N.testbit fl 3 = false else pre = 5).
+Proof.
+  intros pre ver fam fl k H. unfold header_ok in H. rewrite !andb_true_iff in H.
+  destruct H as ((((Hk0 & Hk1) & Hp) & Hf) & Hv).
+  apply negb_true_iff, N.eqb_neq in Hk0. apply N.leb_le in Hk1. apply N.eqb_eq in Hf, Hv.
+  repeat split; auto; try lia.
+  destruct (N.testbit fl 2).
+  - apply andb_true_iff in Hp. destruct Hp as [Hp1 Hp2]. apply N.eqb_eq in Hp1. apply negb_true_iff in Hp2. auto.
+  - now apply N.eqb_eq in Hp.
+Qed.
+
+(* non-vacuity: the image of k = 4, n = 3, W = 3.0, w_max = 1.0, rho = 1.0, C = 2.5, items 7 and -1, partial item 5 *)
+Definition C10_ex : esk :=
+  {| e_k := 4; e_n := 3; e_cw := 4613937818241073152; e_wmax := 4607182418800017408; e_rho := 4607182418800017408;
+     e_c := 4612811918334230528; e_data := [7; 18446744073709551615]; e_part := Some 5 |}.
+Example C10_ebpps_nonvacuous :
+  enc C10_ex = [5; 1; 19; 8; 4; 0; 0; 0] ++ [3; 0; 0; 0; 0; 0; 0; 0] ++ [0; 0; 0; 0; 0; 0; 8; 64] ++ [0; 0; 0; 0; 0; 0; 240; 63] ++
+               [0; 0; 0; 0; 0; 0; 240; 63] ++ [0; 0; 0; 0; 0; 0; 4; 64] ++ [7; 0; 0; 0; 0; 0; 0; 0] ++
+               [255; 255; 255; 255; 255; 255; 255; 255] ++ [5; 0; 0; 0; 0; 0; 0; 0] /\
+  rd 8 40 (enc C10_ex) = Some 4612811918334230528 /\ rd 8 64 (enc C10_ex) = Some 5.
+Proof. vm_compute. repeat split. Qed.
+
+Print Assumptions C10_ebpps_first_long.
+Print Assumptions C10_ebpps_flags.
+Print Assumptions C10_ebpps_empty_image.
+Print Assumptions C10_ebpps_nonempty_fields.
+Print Assumptions C10_ebpps_versions.
